@@ -548,7 +548,7 @@ def run_ub(prop, tier, seed):
     unit_files = C20_UNITS_THOROUGH if tier == 'thorough' else C20_UNITS_QUICK
     count = 400 if tier == 'thorough' else 60
     evals = 0
-    env = dict(os.environ, VERIF_ECHO='1', VERIF_INT_SMALL='1', ASAN_OPTIONS='detect_leaks=0', UBSAN_OPTIONS='print_stacktrace=1')
+    env = dict(os.environ, VERIF_ECHO='1', VERIF_INT_SMALL='1', VERIF_FLOAT_MODERATE='1', ASAN_OPTIONS='detect_leaks=0', UBSAN_OPTIONS='print_stacktrace=1')
     for uf in unit_files:
         bins, err = build_units(uf, extra_flags=SAN_FLAGS, tag='_san')
         if err: unexplained.append('sanitizer build of %s failed: %s' % (uf, err[-300:])); continue
